@@ -150,7 +150,29 @@ pub fn jsonld_shapes(rng: &mut Rng, d: &mut Vec<Q>) {
         }
     };
     let g = rng.pick(&gs).clone();
-    match rng.below(4) {
+    match rng.below(5) {
+        4 => {
+            // several values of one subject and property that become EQUAL JSON values: distinct lists with item-wise equal content
+            // (same or different length), next to plain values equal to their items
+            let s = if rng.chance(1, 2) { iri("http://ex/a") } else { b(0) };
+            let items = [iri("http://ex/i1"), lit_dt("2", &format!("{XSD}integer"))];
+            let mut cell = 50;
+            for _ in 0..2 + rng.below(2) {
+                let len = 1 + rng.below(2);
+                push(d, ([s.clone(), iri("http://ex/p"), b(cell)], g.clone()));
+                for k in 0..len {
+                    push(d, ([b(cell + k), rdf("first"), items[k].clone()], g.clone()));
+                    push(d, ([b(cell + k), rdf("rest"), if k + 1 < len { b(cell + k + 1) } else { rdf("nil") }], g.clone()));
+                }
+                cell += 4;
+            }
+            if rng.chance(1, 2) {
+                push(d, ([s.clone(), iri("http://ex/p"), items[0].clone()], g.clone()));
+            }
+            if rng.chance(1, 3) {
+                push(d, ([s, iri("http://ex/p"), rdf("nil")], g.clone()));
+            }
+        }
         3 => {
             // a well-formed list whose parent statement, or whose cells, are unusual: parent predicate rdf:type / rdf:first / rdf:rest,
             // blank parent; a cell that also names a graph, is described in another graph, or is referenced from elsewhere
@@ -350,7 +372,21 @@ pub fn describe(i: &Input) -> Value {
 
 fn run_turtle(i: &Input) -> Value {
     let cfg = TurtleConfig::new().with_pretty(i.pretty).with_own_prefix_map(prefix_map(i.pm)).with_indentation(INDENTS[i.indent]);
+    // every third dataset is written to a target that takes a few bytes per call (io::Write::write may accept less than it is given)
+    let trickle = i.d.len() % 3 == 2;
     let text: Result<String, String> = guarded(|| {
+        if trickle {
+            let buf = std::rc::Rc::new(std::cell::RefCell::new(Vec::<u8>::new()));
+            if i.fmt == "turtle" {
+                let mut s = TurtleSerializer::new_with_config(crate::rt2::ShortWrites(buf.clone()), cfg.clone());
+                s.serialize_triples(i.d.iter().map(|q| q.0.clone()).map(Ok::<_, std::convert::Infallible>)).map_err(|e| e.to_string())?;
+            } else {
+                let mut s = TrigSerializer::new_with_config(crate::rt2::ShortWrites(buf.clone()), cfg.clone());
+                s.serialize_quads(i.d.iter().cloned().map(Ok::<_, std::convert::Infallible>)).map_err(|e| e.to_string())?;
+            }
+            let t = String::from_utf8_lossy(&buf.borrow()).to_string();
+            return Ok(t);
+        }
         if i.fmt == "turtle" {
             let mut s = TurtleSerializer::new_stringifier_with_config(cfg.clone());
             s.serialize_triples(i.d.iter().map(|q| q.0.clone()).map(Ok::<_, std::convert::Infallible>)).map_err(|e| e.to_string())?;
